@@ -620,6 +620,61 @@ func genMini(r *Rng, p Knobs, fork int) *Mini {
 	return m
 }
 
+// pending attestations over zrnt's own committees: mostly well-formed (bits as long as the committee, slot before the
+// state's slot, delay >= 1), with right and wrong target / head roots
+func genAtts(r *Rng, spec *common.Spec, epc *common.EpochsContext, m *Mini) {
+	n := uint64(len(m.Vals))
+	ce := uint64(epc.CurrentEpoch.Epoch)
+	seen := map[[2]uint64]bool{}
+	gen := func(sh *common.ShufflingEpoch, e uint64) []Pend {
+		var out []Pend
+		k := r.Intn(7)
+		for j := 0; j < k; j++ {
+			so := uint64(r.Intn(4))
+			slot := e*4 + so
+			if slot >= m.Slot {
+				continue
+			}
+			comms := sh.Committees[so]
+			if len(comms) == 0 {
+				continue
+			}
+			idx := uint64(r.Intn(len(comms)))
+			members := comms[idx]
+			if len(members) == 0 {
+				continue
+			}
+			a := Pend{Slot: slot, Index: idx, Src: uint64(r.Intn(int(e + 1))), Tgt: e, Delay: uint64(1 + r.Intn(4)), Proposer: uint64(r.Intn(int(n)))}
+			a.Bits = make([]bool, len(members))
+			for i := range a.Bits {
+				a.Bits[i] = r.Chance(70)
+			}
+			a.BBR = byte(slot%16 + 1)
+			if r.Chance(30) {
+				a.BBR = byte(200 + r.Intn(50))
+			}
+			a.TgtRoot = byte((e*4)%16 + 1)
+			if r.Chance(25) {
+				a.TgtRoot = byte(200 + r.Intn(50))
+			}
+			out = append(out, a)
+			if !seen[[2]uint64{slot, idx}] {
+				seen[[2]uint64{slot, idx}] = true
+				c := Comm{Slot: slot, Index: idx}
+				for _, v := range members {
+					c.Members = append(c.Members, uint64(v))
+				}
+				m.Comms = append(m.Comms, c)
+			}
+		}
+		return out
+	}
+	if ce >= 1 {
+		m.PAtts = gen(epc.PreviousEpoch, ce-1)
+	}
+	m.CAtts = gen(epc.CurrentEpoch, ce)
+}
+
 func ctx() context.Context { return context.Background() }
 
 func loadEpc(spec *common.Spec, st common.BeaconState) (*common.EpochsContext, error) {
@@ -643,7 +698,7 @@ func run(e *Env) error {
 	for it := 0; it < rounds; it++ {
 		p := genKnobs(r)
 		spec := mkSpec(p)
-		fork := []int{0, 1, 1, 2, 3, 4}[r.Intn(6)]
+		fork := []int{0, 0, 1, 1, 2, 3, 4}[r.Intn(7)]
 		m := genMini(r, p, fork)
 		if err := oneState(e, spec, p, m); err != nil {
 			return err
@@ -663,6 +718,12 @@ func oneState(e *Env, spec *common.Spec, p Knobs, m *Mini) error {
 	epc0, err := loadEpc(spec, base)
 	if err != nil {
 		return fmt.Errorf("epc: %v", err)
+	}
+	if m.Fork == 0 {
+		genAtts(r, spec, epc0, m)
+		if base, err = buildState(spec, m); err != nil {
+			return fmt.Errorf("build: %v", err)
+		}
 	}
 	pre, err := observe(spec, m.Fork, base)
 	if err != nil {
@@ -698,7 +759,7 @@ func oneState(e *Env, spec *common.Spec, p Knobs, m *Mini) error {
 	// --- state steps ---
 	type stepDef struct {
 		name, coq string
-		altair    bool // needs an altair-family state
+		need      int // 0: any fork, 1: altair family only, 2: phase0 only
 		fn        stepFn
 	}
 	total := epc0.TotalActiveStake
@@ -717,62 +778,69 @@ func oneState(e *Env, spec *common.Spec, p Knobs, m *Mini) error {
 	just := phase0.JustificationStakeData{CurrentEpoch: epc0.CurrentEpoch.Epoch, TotalActiveStake: total,
 		PrevEpochUnslashedTargetStake: mkStake(), CurrEpochUnslashedTargetStake: mkStake()}
 	steps := []stepDef{
-		{"registry", "SRegistry", false, func(spec *common.Spec, epc *common.EpochsContext, flats []common.FlatValidator, st common.BeaconState) error {
+		{"registry", "SRegistry", 0, func(spec *common.Spec, epc *common.EpochsContext, flats []common.FlatValidator, st common.BeaconState) error {
 			if m.Fork >= 4 {
 				return deneb.ProcessEpochRegistryUpdates(ctx(), spec, epc, flats, st)
 			}
 			return phase0.ProcessEpochRegistryUpdates(ctx(), spec, epc, flats, st)
 		}},
 		{"justification", fmt.Sprintf("(SJust (mkJustData %d %d %d %d))", uint64(just.CurrentEpoch), uint64(just.TotalActiveStake),
-			uint64(just.PrevEpochUnslashedTargetStake), uint64(just.CurrEpochUnslashedTargetStake)), false,
+			uint64(just.PrevEpochUnslashedTargetStake), uint64(just.CurrEpochUnslashedTargetStake)), 0,
 			func(spec *common.Spec, epc *common.EpochsContext, flats []common.FlatValidator, st common.BeaconState) error {
 				j := just
 				return phase0.ProcessEpochJustification(ctx(), spec, &j, st)
 			}},
-		{"effbal", "SEffBal", false, func(spec *common.Spec, epc *common.EpochsContext, flats []common.FlatValidator, st common.BeaconState) error {
+		{"effbal", "SEffBal", 0, func(spec *common.Spec, epc *common.EpochsContext, flats []common.FlatValidator, st common.BeaconState) error {
 			return phase0.ProcessEffectiveBalanceUpdates(ctx(), spec, epc, flats, st)
 		}},
-		{"eth1reset", "SEth1", false, func(spec *common.Spec, epc *common.EpochsContext, flats []common.FlatValidator, st common.BeaconState) error {
+		{"eth1reset", "SEth1", 0, func(spec *common.Spec, epc *common.EpochsContext, flats []common.FlatValidator, st common.BeaconState) error {
 			return phase0.ProcessEth1DataReset(ctx(), spec, epc, st)
 		}},
-		{"slashreset", "SSlashReset", false, func(spec *common.Spec, epc *common.EpochsContext, flats []common.FlatValidator, st common.BeaconState) error {
+		{"slashreset", "SSlashReset", 0, func(spec *common.Spec, epc *common.EpochsContext, flats []common.FlatValidator, st common.BeaconState) error {
 			return phase0.ProcessSlashingsReset(ctx(), spec, epc, st)
 		}},
-		{"randao", "SRandao", false, func(spec *common.Spec, epc *common.EpochsContext, flats []common.FlatValidator, st common.BeaconState) error {
+		{"randao", "SRandao", 0, func(spec *common.Spec, epc *common.EpochsContext, flats []common.FlatValidator, st common.BeaconState) error {
 			return phase0.ProcessRandaoMixesReset(ctx(), spec, epc, st)
 		}},
-		{"historical", "SHist", false, func(spec *common.Spec, epc *common.EpochsContext, flats []common.FlatValidator, st common.BeaconState) error {
+		{"historical", "SHist", 0, func(spec *common.Spec, epc *common.EpochsContext, flats []common.FlatValidator, st common.BeaconState) error {
 			if m.Fork >= 3 {
 				return capella.ProcessHistoricalSummariesUpdate(ctx(), spec, epc, st.(capella.HistoricalSummariesBeaconState))
 			}
 			return phase0.ProcessHistoricalRootsUpdate(ctx(), spec, epc, st)
 		}},
-		{"rotate", "SPartRotate", false, func(spec *common.Spec, epc *common.EpochsContext, flats []common.FlatValidator, st common.BeaconState) error {
+		{"rotate", "SPartRotate", 0, func(spec *common.Spec, epc *common.EpochsContext, flats []common.FlatValidator, st common.BeaconState) error {
 			if m.Fork == 0 {
 				return phase0.ProcessParticipationRecordUpdates(ctx(), spec, epc, st.(phase0.Phase0PendingAttestationsBeaconState))
 			}
 			return altair.ProcessParticipationFlagUpdates(ctx(), spec, st.(altair.AltairLikeBeaconState))
 		}},
-		{"slashings", "SSlashings", false, func(spec *common.Spec, epc *common.EpochsContext, flats []common.FlatValidator, st common.BeaconState) error {
+		{"slashings", "SSlashings", 0, func(spec *common.Spec, epc *common.EpochsContext, flats []common.FlatValidator, st common.BeaconState) error {
 			return phase0.ProcessEpochSlashings(ctx(), spec, epc, flats, st)
 		}},
-		{"inactivity", "SInactivity", true, func(spec *common.Spec, epc *common.EpochsContext, flats []common.FlatValidator, st common.BeaconState) error {
+		{"inactivity", "SInactivity", 1, func(spec *common.Spec, epc *common.EpochsContext, flats []common.FlatValidator, st common.BeaconState) error {
 			ad, err := altair.ComputeEpochAttesterData(ctx(), spec, epc, flats, st.(altair.AltairLikeBeaconState))
 			if err != nil {
 				return err
 			}
 			return altair.ProcessInactivityUpdates(ctx(), spec, ad, st.(altair.AltairLikeBeaconState))
 		}},
-		{"rewards", "SRewards", true, func(spec *common.Spec, epc *common.EpochsContext, flats []common.FlatValidator, st common.BeaconState) error {
+		{"rewards", "SRewards", 1, func(spec *common.Spec, epc *common.EpochsContext, flats []common.FlatValidator, st common.BeaconState) error {
 			ad, err := altair.ComputeEpochAttesterData(ctx(), spec, epc, flats, st.(altair.AltairLikeBeaconState))
 			if err != nil {
 				return err
 			}
 			return altair.ProcessEpochRewardsAndPenalties(ctx(), spec, epc, ad, st.(altair.AltairLikeBeaconState))
 		}},
+		{"rewards0", "SRewards0", 2, func(spec *common.Spec, epc *common.EpochsContext, flats []common.FlatValidator, st common.BeaconState) error {
+			ad, err := phase0.ComputeEpochAttesterData(ctx(), spec, epc, flats, st.(phase0.Phase0PendingAttestationsBeaconState))
+			if err != nil {
+				return err
+			}
+			return phase0.ProcessEpochRewardsAndPenalties(ctx(), spec, epc, ad, st)
+		}},
 	}
 	for _, sd := range steps {
-		if sd.altair && m.Fork == 0 {
+		if (sd.need == 1 && m.Fork == 0) || (sd.need == 2 && m.Fork != 0) {
 			continue
 		}
 		st, err := buildState(spec, m)
@@ -802,6 +870,39 @@ func oneState(e *Env, spec *common.Spec, p Knobs, m *Mini) error {
 		}
 		c := fmt.Sprintf("CState %s %s %s", head, sd.coq, goRes(body, serr, pan))
 		e.Add(Case{Coq: c, Kind: sd.name, NonTrivial: nt, JSON: map[string]interface{}{"step": sd.name, "knobs": p, "mini": m, "bytes": len(c)}})
+	}
+
+	// --- phase0 attester data ---
+	if m.Fork == 0 {
+		st, err := buildState(spec, m)
+		if err != nil {
+			return err
+		}
+		epc, err := loadEpc(spec, st)
+		if err != nil {
+			return err
+		}
+		vals, _ := st.Validators()
+		flats, err := common.FlattenValidators(vals)
+		if err != nil {
+			return err
+		}
+		var ad *phase0.EpochAttesterData
+		var aerr error
+		pan, _ := Catch(func() {
+			ad, aerr = phase0.ComputeEpochAttesterData(ctx(), spec, epc, flats, st.(phase0.Phase0PendingAttestationsBeaconState))
+		})
+		body := ""
+		if !pan && aerr == nil {
+			it := make([]string, len(ad.Statuses))
+			for i, x := range ad.Statuses {
+				it[i] = fmt.Sprintf("(%d, %d, %d)", uint64(x.InclusionDelay), uint64(x.AttestedProposer), uint8(x.Flags))
+			}
+			body = fmt.Sprintf("(%s, (%d, %d, %d, %d))", CoqList(it), uint64(ad.PrevEpochUnslashedStake.SourceStake),
+				uint64(ad.PrevEpochUnslashedStake.TargetStake), uint64(ad.PrevEpochUnslashedStake.HeadStake), uint64(ad.CurrEpochUnslashedTargetStake))
+		}
+		e.Add(Case{Coq: fmt.Sprintf("CP0Data %s %s", head, goRes(body, aerr, pan)), Kind: "p0data", NonTrivial: len(m.PAtts)+len(m.CAtts) > 0,
+			JSON: map[string]interface{}{"step": "p0data", "knobs": p, "mini": m}})
 	}
 
 	// --- altair intermediate results ---
